@@ -616,7 +616,11 @@ def run(ctx):
     if ctx.replay:
         rp = json.load(open(ctx.replay))
         if rp.get("case"):
-            configs = [{k: rp["case"][k] for k in ("search", "updates", "remove_files", "csv", "keep_internal", "chk") if k in rp["case"]}]
+            # probes for a replay: one standard configuration (exhibits every repair) + the case's own if it is a modelled one
+            configs = [{"search": "drawer", "remove_files": 1, "csv": 1, "keep_internal": 1, "chk": 0}]
+            own = {k: rp["case"][k] for k in ("search", "updates", "remove_files", "csv", "keep_internal", "chk") if k in rp["case"]}
+            if own.get("search") in ("drawer", "lbfgs") and own.get("updates", 1) in (1, 2) and own != configs[0]:
+                configs.append(own)
     # stage 1: probes
     lb = {"search": "lbfgs", "updates": 1, "remove_files": 0, "csv": 0, "keep_internal": 1, "chk": 0}
     extra_cases = [
@@ -736,8 +740,9 @@ MANIFEST = {
             "archive-write window, LBFGS resume, truncated search state / summary, empty timer files; vm_compute correspondence of the model "
             "with real killed/re-run fits (trace, outcome, folder, archive) and a direct property oracle",
     "note": "Trusted: Coq kernel + vm_compute, the audit-hook fault injector and file readers of the harness, POSIX process-death "
-            "semantics (no power loss, no concurrent writers). Model: Drawer and LBFGS with DirectoryPaths; DatabasePaths only by an "
-            "oracle-level re-run check; dynesty/emcee checkpoints not covered. Defects of the pinned tree (interrupted archive write, LBFGS "
+            "semantics (no power loss, no concurrent writers). Model: Drawer and LBFGS with DirectoryPaths (incl. the user files of "
+            "Analysis.save_attributes / save_results); DatabasePaths, DynestyStatic and PySwarms by the oracle only; every os.replace is "
+            "checked to move a closed, complete file. The correspondence is pinned to Model.repaired (= /repo now). Defects of the pinned tree (interrupted archive write, LBFGS "
             "resume, truncated search state / samples summary, empty timer files, likelihood sanity check, DatabasePaths re-run) are listed "
             "as known findings with proposed repairs; theorems named *_repaired hold for the model with those repairs.",
     "technique": "machine-checked proof in Coq (state-machine model, invariants over all crash prefixes) + vm_compute correspondence with fault-injected real fits",
